@@ -619,6 +619,106 @@ Section RaggedEof.
   Qed.
 End RaggedEof.
 
+(* ---- the same statement for the fixed pump and for the pinned one ---- *)
+Definition step_v (pinned : bool) (O : Type) (ocall : O -> func -> list nat -> bool -> option (O * sslev)) :=
+  if pinned then step_pinned O ocall else step O ocall.
+
+(* "Not standard_compatible: an EndOfStream from receive() that is not the SSL object's own unexpected-EOF verdict
+   (i.e. the SSL object's last answer was "want read" - the end was the transport's - or an empty read) leaves both
+   BIOs as they were and nothing pending, and a following send() is the SSL object's write on those BIOs with its
+   ciphertext flushed."  Proved for the fixed pump (pinned = false), refuted for the pinned one (pinned = true). *)
+Definition ragged_eof_spec (pinned : bool) : Prop :=
+  forall (O : Type) (ocall : O -> func -> list nat -> bool -> option (O * sslev)) fuel o s n o1 s1 pre e,
+    std s = false ->
+    step_v pinned O ocall fuel (o, s) (OReceive n) = ((o1, s1), REndOfStream) ->
+    olog s1 = pre ++ [(FRead n, e)] -> ~ unexpected_eof e ->
+    bin_eof s1 = bin_eof s /\ bout_eof s1 = bout_eof s /\ bout s1 = [] /\
+    forall item o2 e2 fuel2,
+      ocall o1 (FWrite item) (bin s1) (bin_eof s) = Some (o2, e2) -> ek e2 = KOk ->
+      hd TxOk (txs s1) = TxOk ->
+      exists s2, step_v pinned O ocall (S fuel2) (o1, s1) (OSend item) = ((o2, s2), RVal []) /\
+        sent_of (trace s2) = sent_of (trace s1) ++ eemit e2 /\ bout s2 = [] /\
+        produced s2 = produced s1 ++ eemit e2 /\
+        bin s2 = skipn (econs e2) (bin s1) /\ bin_eof s2 = bin_eof s /\ bout_eof s2 = bout_eof s.
+
+Lemma on_ev_val_eofs s e s' v : on_ev s e = (s', Done (RVal v)) ->
+  bin_eof s' = bin_eof s /\ bout_eof s' = bout_eof s.
+Proof.
+  unfold on_ev. destruct (ek e); try discriminate.
+  - pose proof (flush_eofs s) as H. destruct (flush s) as [s1 t]. cbn [fst] in H.
+    destruct t; cbn; intros E; inversion E; subst; exact H.
+  - destruct (flush s) as [s1 t]. destruct t; try discriminate.
+    unfold do_recv. destruct (pop_rx s1) as [[x s3]|]; [|discriminate].
+    destruct x; try discriminate; case_ifs; discriminate.
+  - destruct (do_send s) as [s1 t]. destruct t; cbn; discriminate.
+  - destruct (std s); discriminate.
+  - destruct (std s); discriminate.
+Qed.
+
+Lemma pump_val_eofs O ocall fuel : forall o f s o1 s1 v,
+  std s = false -> pump O ocall fuel o f s = (o1, s1, RVal v) ->
+  bin_eof s1 = bin_eof s /\ bout_eof s1 = bout_eof s.
+Proof.
+  induction fuel as [|k IH]; intros o f s o1 s1 v Hs; cbn [pump]; [discriminate|].
+  unfold iter. destruct (ocall o f (bin s) (bin_eof s)) as [[o' e']|]; [|discriminate].
+  destruct (on_ev (apply_ev s f e') e') as [s2 nx] eqn:Ev.
+  pose proof (on_ev_frame (apply_ev s f e') e') as [F1 _]. rewrite Ev in F1. cbn in F1.
+  destruct nx as [r|].
+  - intros H. injection H as <- <- ->. apply (on_ev_val_eofs _ _ _ _ Ev).
+  - intros H. destruct (on_ev_again_eofs (apply_ev s f e') e' s2 Hs Ev) as [H1 H2]. cbn in H1, H2.
+    destruct (IH _ _ _ _ _ _ (eq_trans F1 Hs) H) as [I1 I2]. split; congruence.
+Qed.
+
+Theorem pump_ragged_eof_spec_head : ragged_eof_spec false.
+Proof.
+  intros O ocall fuel o s n o1 s1 pre e Hs Hst Hl Hne. unfold step_v in *.
+  assert (Hcore : bin_eof s1 = bin_eof s /\ bout_eof s1 = bout_eof s /\ bout s1 = []).
+  { cbn [step] in Hst. destruct n as [|n]; [discriminate|].
+    destruct (pump O ocall fuel o (FRead (S n)) s) as [[o1' s1'] r] eqn:Ep.
+    assert (E : o1' = o1 /\ s1' = s1 /\ (r = REndOfStream \/ r = RVal [])).
+    { destruct r as [[|x v]| | | | | | | |]; inversion Hst; auto. }
+    destruct E as (-> & -> & [-> | ->]).
+    - assert (Hr : REndOfStream <> RStuck) by discriminate.
+      destruct (pump_spec O ocall fuel _ _ _ _ _ _ Ep Hr) as (_ & pre' & e' & Hl' & _ & Hres).
+      rewrite Hl in Hl'. apply app_inj_tail in Hl'. destruct Hl' as [_ Hl']. injection Hl' as <-.
+      unfold res_of_ev in Hres. destruct (ek e) eqn:Hk.
+      + destruct Hres as [H|[_ [H|[H|H]]]]; discriminate.
+      + destruct (pump_ragged O ocall fuel _ _ _ _ _ _ _ Hs Ep Hl Hk) as (H1 & H2 & H3 & _). auto.
+      + destruct Hres as [_ [H|[H|H]]]; discriminate.
+      + discriminate.
+      + exfalso. apply Hne. now left.
+      + exfalso. apply Hne. now right.
+      + discriminate.
+      + discriminate.
+    - destruct (pump_val_eofs O ocall fuel _ _ _ _ _ _ Hs Ep) as [H1 H2].
+      pose proof (pump_val_flushed O ocall fuel _ _ _ _ _ _ Ep). auto. }
+  destruct Hcore as (H1 & H2 & H3). refine (conj H1 (conj H2 (conj H3 _))).
+  intros item o2 e2 fuel2 Hc Hk2 Htx. rewrite <- H1 in Hc.
+  destruct (ok_flush s1 (FWrite item) e2 Hk2 H3 Htx) as (s2 & Hev & R1 & R2 & R3 & R4 & R5 & R6).
+  exists s2. cbn [step pump]. unfold iter. rewrite Hc, Hev.
+  split; [reflexivity|]. repeat split; auto; congruence.
+Qed.
+
+(* The pinned pump hands the transport's end to the SSL object; an SSL object that then answers with an empty read
+   (what OpenSSL does under OP_IGNORE_UNEXPECTED_EOF) makes receive() report EndOfStream with the incoming BIO at EOF. *)
+Theorem pump_ragged_eof_spec_refuted_pinned : ~ ragged_eof_spec true.
+Proof.
+  intros H.
+  specialize (H (list sslev) scall 5 [mkev KWantRead [] 0 []; mkev KOk [] 0 []] (init_pst false [] (Some RxEof) []) 10).
+  unfold step_v in H. cbn in H.
+  edestruct H as (Hb & _); [reflexivity|reflexivity|reflexivity|intros [E|E]; discriminate|].
+  cbn in Hb. discriminate.
+Qed.
+
+(* the statement is not vacuous for the fixed pump: both kinds of EndOfStream it talks about occur *)
+Example ex_ragged_eof_spec_hyp :
+  let s := init_pst false [] (Some RxEof) [] in
+  sstep 5 ([mkev KWantRead [] 0 []; mkev KOk [2] 0 [23; 3]], s) (OReceive 10)
+    = (([mkev KOk [2] 0 [23; 3]], snd (fst (sstep 5 ([mkev KWantRead [] 0 []; mkev KOk [2] 0 [23; 3]], s) (OReceive 10)))), REndOfStream) /\
+  olog (snd (fst (sstep 5 ([mkev KWantRead [] 0 []; mkev KOk [2] 0 [23; 3]], s) (OReceive 10)))) = [(FRead 10, mkev KWantRead [] 0 [])] /\
+  ~ unexpected_eof (mkev KWantRead [] 0 []).
+Proof. split; [vm_compute; reflexivity|]. split; [vm_compute; reflexivity|]. intros [E|E]; discriminate. Qed.
+
 (* ------------------------------------------------------------------------------------------------ *)
 (* Part 2: the toy record layer                                                                      *)
 (* ------------------------------------------------------------------------------------------------ *)
@@ -1887,9 +1987,10 @@ Qed.
 
 (* The same with a scripted SSL object that answers like OpenSSL 3 does once it has seen the EOF (the unexpected-EOF
    error again, for read AND for write): under the pinned pump send() raises EndOfStream and writes nothing, and the
-   incoming BIO is at EOF - so the conclusions of pump_ragged_eof_keeps_send_alive fail.  The fixed pump, on a
-   transport that ends in the same place, never tells the SSL object, which therefore performs the write. *)
-Theorem pump_ragged_eof_keeps_send_alive_refuted_pinned :
+   incoming BIO is at EOF.  The fixed pump, on a transport that ends in the same place, never tells the SSL object, which
+   therefore performs the write.  This is a behavioural CONTRAST (two scripts, chosen to mimic the poisoned and the healthy
+   object), not a refutation of a statement: the same-shape pair is pump_ragged_eof_spec_head / _refuted_pinned. *)
+Theorem pump_ragged_eof_pinned_contrast :
   exists (poisoned healthy : list sslev),
     let out := srun_pinned 5 (poisoned, init_pst false [] (Some RxEof) []) [OReceive 10; OSend [1; 2]] in
     snd out = [REndOfStream; REndOfStream] /\ sent_of (trace (snd (fst out))) = [] /\
@@ -1921,6 +2022,30 @@ Example ex_conserved_and_flushed :
   produced s = [1; 2; 3; 4; 5; 6; 7; 8; 9] /\ sent_of (trace s) = produced s /\ bout s = [] /\
   fed s = [20; 21; 22; 23; 24] /\ rcvd_of (trace s) = fed s /\ consumed s = fed s /\
   sendfail s = false /\ late s = false.
+Proof. vm_compute. repeat split. Qed.
+
+(* the two guards of the conservation theorem are both false on an ordinary duplex run of the toy layer ... *)
+Example ex_conservation_guards_false_duplex :
+  let s := snd (fst (trun 20 (init_tobj 1, ep0 true (map (fun b => [b]) (wire 1 [[10; 11; 12]; [13]] true)))
+                      [OHandshake; OSend [7; 8; 9]; OReceive 2; OReceive 5; OSend [1]; OReceive 5; OReceive 5])) in
+  sendfail s = false /\ late s = false /\
+  sent_of (trace s) = wire 1 [[7; 8; 9]; [1]] false /\ produced s = sent_of (trace s) ++ bout s /\
+  rcvd_of (trace s) = wire 1 [[10; 11; 12]; [13]] true /\ fed s = rcvd_of (trace s).
+Proof. vm_compute. repeat split. Qed.
+
+(* ... and this is what they exclude.  sendfail: a transport.send() raised - the bytes handed to that call are gone
+   (the BIO was emptied before the call), so produced <> sent ++ pending from then on *)
+Example ex_sendfail_excluded :
+  let s := snd (fst (srun 3 ([mkev KOk [1] 0 [1; 2]; mkev KOk [1] 0 [3]], init_pst true [] None [TxBroken])
+                      [OSend [0]; OSend [0]])) in
+  sendfail s = true /\ produced s = [1; 2; 3] /\ sent_of (trace s) = [3] /\ bout s = [].
+Proof. vm_compute. repeat split. Qed.
+
+(* late: the transport delivered data AFTER reporting its own end of stream (no sane transport does): MemoryBIO.write()
+   refuses it, so received <> fed from then on *)
+Example ex_late_excluded :
+  let out := srun 3 ([mkev KWantRead [] 0 []; mkev KWantRead [] 0 []], init_pst true [RxEof; RxData [5]] None []) [OReceive 4] in
+  snd out = [RSslOther] /\ late (snd (fst out)) = true /\ rcvd_of (trace (snd (fst out))) = [5] /\ fed (snd (fst out)) = [].
 Proof. vm_compute. repeat split. Qed.
 
 (* transport ends -> write_eof -> the SSL object reports an unexpected EOF *)
